@@ -15,7 +15,8 @@
 From Coq Require Import List ZArith Bool Lia.
 From Verif Require Import Base.Bytes Base.BE Wire.TType Wire.WVal Wire.Codec Wire.CodecFacts
   Wire.Schema Wire.Value Wire.Std Wire.StdFacts Wire.Masked Wire.MaskedFacts
-  Wire.MaskedPathSet Wire.MaskedRead Wire.MaskedReadFacts Wire.MaskedHalfway Wire.MaskedHalfwayFacts.
+  Wire.MaskedPathSet Wire.MaskedRead Wire.MaskedReadFacts Wire.MaskedHalfway Wire.MaskedHalfwayFacts
+  Wire.MaskedOwn Wire.MaskedOwnFacts.
 From Verif Require Mask.Path Mask.Desc Mask.Trie Mask.Spec.
 Import ListNotations.
 Open Scope Z_scope.
@@ -313,6 +314,56 @@ Proof.
   split; [vm_compute; reflexivity|]. split; [vm_compute; reflexivity|]. vm_compute. discriminate.
 Qed.
 Print Assumptions C13_halfway_nil_mask_refuted.
+
+(* ---- field_mask_halfway: a mask the user set on a non-root struct value ----
+
+   to_wm_own cfg e path m_own st n v (Wire/MaskedOwn.v; compared with the real code on every run,
+   driver verb mwrite_own): Write of the struct value v under st, when the sub object reached through
+   the struct-typed fields [path] had Set_FieldMask(m_own) called on it. *)
+
+(* with the option, the sub object is written exactly as a root object carrying m_own, whatever its
+   parent passes: every theorem above about Write under a mask applies to it *)
+Theorem C13_own_mask_halfway_at : forall cfg e m st n fs, halfway cfg = true ->
+  to_wm_own cfg e [] (Some m) st n (VStruct fs) = to_wm_mask cfg e (Some m) (TRef n) (VStruct fs).
+Proof. exact own_mask_halfway_at. Qed.
+Print Assumptions C13_own_mask_halfway_at.
+
+Theorem C13_own_mask_wins : forall cfg e m st n fs,
+  to_wm_again cfg e (Some m) st (TRef n) (VStruct fs) = to_wm_mask cfg e (Some m) (TRef n) (VStruct fs).
+Proof. exact own_mask_wins. Qed.
+Print Assumptions C13_own_mask_wins.
+
+Theorem C13_to_wm_again_same : forall cfg e m t v, to_wm_again cfg e m m t v = to_wm_mask cfg e m t v.
+Proof. exact to_wm_again_same. Qed.
+Print Assumptions C13_to_wm_again_same.
+
+(* without the option the mask set on the sub object has no effect at all, for every path *)
+Theorem C13_own_mask_default_ignored : forall cfg e m_own, halfway cfg = false ->
+  forall path st n v, to_wm_own cfg e path m_own st n v = to_wm_mask cfg e st (TRef n) v.
+Proof. exact own_mask_default_ignored. Qed.
+Print Assumptions C13_own_mask_default_ignored.
+
+(* a nil mask on the sub object: as if nothing had been set, with or without the option *)
+Theorem C13_own_mask_nil : forall cfg e path st n v,
+  to_wm_own cfg e path None st n v = to_wm_mask cfg e st (TRef n) v.
+Proof. exact own_mask_nil. Qed.
+Print Assumptions C13_own_mask_nil.
+
+(* both at once on a concrete object: H2{1: In i}, i.Set_FieldMask($.x), root mask nil *)
+Definition w_H2 : sschema := mkstruct (B "a.H2") KStruct [mkfield 1 (B "i") Default (TRef (B "a.In")) None false].
+Definition w_EH2 : env := mkenv [w_In; w_H2] [].
+Definition w_vH2 : value := VStruct [(1, VStruct [(1, VInt 7); (2, VInt 8)])].
+
+Example C13_own_mask_example :
+  exists m r1 r2, mask_for w_EH2 w_In false [B "$.x"] = Mask.Trie.Ok m /\
+    write_with_own w_halfway None [1] (Some m) w_EH2 w_H2 w_vH2 = Ok r1 /\
+    cook r1 = WStruct [(T_STRUCT, 1, WStruct [(T_I32, 1, WI32 7)])] /\
+    write_with_own (mkcfg false false false) None [1] (Some m) w_EH2 w_H2 w_vH2 = Ok r2 /\
+    cook r2 = WStruct [(T_STRUCT, 1, WStruct [(T_I32, 1, WI32 7); (T_I32, 2, WI32 8)])].
+Proof.
+  eexists. eexists. eexists. split; [vm_compute; reflexivity|]. split; [vm_compute; reflexivity|].
+  split; [vm_compute; reflexivity|]. split; vm_compute; reflexivity.
+Qed.
 
 (* ---- the hypotheses are satisfiable ---- *)
 
